@@ -369,7 +369,7 @@ class Reporter:
         """sig: signature string. A known finding matches when its 'sig' equals the signature
         (exact) or, if it has 'sig_prefix', when the signature starts with it."""
         for k in self.known:
-            if ('sig' in k and k['sig'] == sig) or ('sig_prefix' in k and sig.startswith(k['sig_prefix'])):
+            if ('sig' in k and k['sig'] == sig) or ('sig_prefix' in k and sig.startswith(k['sig_prefix'])) or ('sig_re' in k and __import__('re').fullmatch(k['sig_re'], sig)):
                 self.known_hits.setdefault(k['id'], [0, k])[0] += 1
                 return False
         self.violations.append((sig, witness))
